@@ -586,3 +586,100 @@ pub fn port_strategy() -> impl proptest::strategy::Strategy<Value = PortCase> {
     use proptest::prelude::*;
     (0u8..2, any::<bool>(), prop_oneof![Just(0u16), Just(1u16), Just(80u16), Just(443u16), any::<u16>()], any::<bool>(), 0u8..3).prop_map(|(scheme, explicit, answer_port, simple, extra)| PortCase { scheme, explicit, answer_port, simple, extra })
 }
+
+// ------------------------------------------------------------------------------------------------
+// Attempt order with unlimited concurrency: with `happy_eyeballs_concurrency = None` every attempt
+// starts in the first poll, so the winner says little - but one dual-stack listener on `[::]:port`
+// receives the connections to all loopback addresses of the table, and the order in which they
+// arrive in its accept queue is the order in which the attempts were started ("connection attempts
+// are started in the resulting order"), whatever concurrency is configured.
+
+#[derive(Clone, Debug, Serialize, Deserialize, PartialEq)]
+pub struct OrderCase {
+    pub addrs: Vec<u8>,
+    pub bound: (bool, bool),
+    /// None = all at once; Some(n) with n >= number of addresses behaves the same
+    pub conc: Option<u8>,
+    pub simple_timeout: bool,
+}
+
+pub struct OrderEngine;
+
+impl Engine for OrderEngine {
+    type Case = OrderCase;
+    fn name(&self) -> &'static str {
+        "addrsort-order"
+    }
+    fn real_time(&self) -> bool {
+        true
+    }
+    fn run_case(&self, case: &OrderCase) -> CaseReport {
+        use hyperdriver::client::conn::transport::tcp::{TcpTransport, TcpTransportConfig};
+        use hyperdriver::stream::tcp::TcpStream;
+        use tower::ServiceExt;
+        let mut rep = CaseReport::default();
+        let rt = tokio::runtime::Builder::new_current_thread().enable_all().build().unwrap();
+        let res: Result<(), String> = rt.block_on(async {
+            let tab = table();
+            let listener = match tokio::net::TcpListener::bind("[::]:0").await {
+                Ok(l) => l,
+                Err(_) => {
+                    rep.class("no-dual-stack-listener-inconclusive");
+                    return Ok(());
+                }
+            };
+            let port = listener.local_addr().map_err(|e| e.to_string())?.port();
+            let answer: Vec<SocketAddr> = case.addrs.iter().map(|i| SocketAddr::new(tab[*i as usize % tab.len()], 7)).collect();
+            let mut cfg = TcpTransportConfig::default();
+            cfg.happy_eyeballs_timeout = Some(std::time::Duration::from_secs(if case.simple_timeout { 4 } else { 9 }));
+            cfg.happy_eyeballs_concurrency = case.conc.map(|c| c as usize + answer.len());
+            cfg.connect_timeout = Some(std::time::Duration::from_secs(2));
+            cfg.local_address_ipv4 = case.bound.0.then_some(Ipv4Addr::LOCALHOST);
+            cfg.local_address_ipv6 = case.bound.1.then_some(Ipv6Addr::LOCALHOST);
+            let transport: TcpTransport<ListResolver, TcpStream> = TcpTransport::builder().with_config(cfg).with_resolver(ListResolver(answer.clone())).build();
+            let uri: http::Uri = format!("http://order.test:{port}/").parse().unwrap();
+            let parts = http::Request::get(uri).body(()).unwrap().into_parts().0;
+            let stream = transport.oneshot(parts).await;
+            // everything that was started is in the accept queue by now (loopback connects complete inside the call)
+            let mut arrived: Vec<IpAddr> = vec![];
+            while let Ok(Ok((s, _))) = tokio::time::timeout(std::time::Duration::from_millis(30), listener.accept()).await {
+                if let Ok(l) = s.local_addr() {
+                    arrived.push(l.ip().to_canonical());
+                }
+            }
+            drop(stream);
+            let with_port: Vec<SocketAddr> = answer.iter().map(|a| SocketAddr::new(a.ip(), port)).collect();
+            let order = spec_sort(&with_port, case.bound);
+            // a socket bound to ::1 cannot reach an IPv4-mapped destination
+            let reachable = |a: &SocketAddr| match a.ip() {
+                IpAddr::V6(v6) if v6.to_ipv4_mapped().is_some() => !case.bound.1,
+                _ => true,
+            };
+            let want: Vec<IpAddr> = order.iter().filter(|a| reachable(a)).map(|a| a.ip().to_canonical()).collect();
+            // (a proper prefix is tolerated: the winner may end the operation before a later attempt is polled)
+            let is_prefix = !arrived.is_empty() && arrived.len() <= want.len() && arrived[..] == want[..arrived.len()];
+            if arrived.len() == want.len() {
+                rep.class("every-attempt-observed");
+            }
+            if !is_prefix && !(want.is_empty() && arrived.is_empty()) {
+                rep.violate(
+                    "C16/attempts-started-out-of-order",
+                    format!("resolver answer {answer:?}, binding {:?}, concurrency {:?}: the attempts reached the listener as {arrived:?}, the specified order is {want:?}", case.bound, case.conc),
+                );
+            }
+            Ok(())
+        });
+        if let Err(e) = res {
+            rep.internal_error = Some(e);
+        }
+        rep.class("attempt-order-unlimited-concurrency");
+        rep.nontrivial = case.addrs.len() >= 3;
+        rep.total_ops = case.addrs.len() as u64;
+        rep
+    }
+}
+
+pub fn order_strategy() -> impl proptest::strategy::Strategy<Value = OrderCase> {
+    use proptest::prelude::*;
+    (proptest::collection::vec(0u8..6, 1..7), (any::<bool>(), any::<bool>()), prop_oneof![2 => Just(None), 1 => (0u8..3).prop_map(Some)], any::<bool>()).prop_map(|(addrs, bound, conc, simple_timeout)| OrderCase { addrs, bound, conc, simple_timeout })
+}
